@@ -27,6 +27,8 @@ pub struct Cfg {
     pub defect_narrow: bool,
     /// statements whose right-hand side reads bits the statement itself writes
     pub defect_selfread: bool,
+    /// `~s` with s a whole packed-struct variable
+    pub defect_structnot: bool,
     /// thorough tier: larger designs
     pub big: bool,
 }
@@ -39,6 +41,8 @@ pub struct GenInfo {
     pub neg_used: usize,
     pub narrow_used: usize,
     pub self_reads: usize,
+    pub struct_nots: usize,
+    pub struct_nots_avoided: usize,
     /// self-reading statements that were avoided by construction (main sub)
     pub self_reads_avoided: usize,
 }
@@ -147,7 +151,7 @@ impl MGen<'_, '_> {
 
     fn module_leaf(&mut self, w: usize, no_const: bool) -> Expr {
         let mut back = false;
-        if *self.back_left > 0 && !self.read_all && self.d.chance(1, 5) {
+        if *self.back_left > 0 && !self.read_all && self.d.chance(if self.in_inst { 2 } else { 1 }, 5) {
             back = true;
         }
         let mut rs = self.ranges(back);
@@ -293,16 +297,17 @@ impl MGen<'_, '_> {
             0 => self.leaf(w, no_const),
             1 => {
                 let k = 2 + self.d.below_usize(2.min(w - 1));
-                // split w into k positive parts
-                let mut cuts: BTreeSet<usize> = BTreeSet::new();
-                while cuts.len() < k - 1 {
-                    cuts.insert(1 + self.d.below_usize(w - 1));
-                }
+                // split w into k positive parts (terminates on an exhausted choice sequence)
                 let mut parts = Vec::new();
-                let mut prev = 0;
-                for c in cuts.into_iter().chain([w]) {
-                    parts.push(self.expr(c - prev, depth + 1, no_const));
-                    prev = c;
+                let mut remaining = w;
+                for i in 0..k {
+                    let size = if i == k - 1 {
+                        remaining
+                    } else {
+                        1 + self.d.below_usize(remaining - (k - 1 - i))
+                    };
+                    parts.push(self.expr(size, depth + 1, no_const));
+                    remaining -= size;
                 }
                 Expr::Concat(parts)
             }
@@ -312,7 +317,29 @@ impl MGen<'_, '_> {
                 let b = self.expr(w, depth + 1, false);
                 Expr::Bit(op, Box::new(a), Box::new(b))
             }
-            3 => Expr::Not(Box::new(self.expr(w, depth + 1, no_const))),
+            3 => {
+                let mut a = if self.cfg.defect_structnot && self.fscope.is_none() {
+                    // bias towards the listed shape: ~ applied to a leaf
+                    self.leaf(w, true)
+                } else {
+                    self.expr(w, depth + 1, no_const)
+                };
+                if let Expr::Ref(p) = &a
+                    && matches!(self.sigs[p.sig].shape, Shape::Struct(_))
+                    && p.lo == 0
+                    && p.w == self.sigs[p.sig].shape.bits()
+                {
+                    if self.cfg.defect_structnot {
+                        self.info.struct_nots += 1;
+                    } else {
+                        // listed finding: `~s` on a whole struct is typed as one bit;
+                        // the equivalent `~{s}` is generated instead
+                        self.info.struct_nots_avoided += 1;
+                        a = Expr::Concat(vec![a]);
+                    }
+                }
+                Expr::Not(Box::new(a))
+            }
             4 => {
                 let op = *self.d.pick(&[ArOp::Add, ArOp::Sub, ArOp::Mul]);
                 let a = self.expr(w, depth + 1, no_const);
@@ -619,7 +646,7 @@ fn gen_module(
     let mut kinds: Vec<PKind> = Vec::new();
     let mut chunk_w: Vec<Vec<usize>> = Vec::new();
     for _ in 0..n_proc {
-        let k = d.weighted(&[5, 3, if prior.is_empty() { 0 } else { 3 }, if has_clk { 1 } else { 0 }]);
+        let k = d.weighted(&[5, 3, if prior.is_empty() { 0 } else { 4 }, if has_clk { 1 } else { 0 }]);
         match k {
             0 => {
                 kinds.push(PKind::Assign);
@@ -801,7 +828,7 @@ fn gen_module(
 }
 
 pub fn gen_design(d: &mut Draw, cfg: Cfg) -> (Design, GenInfo) {
-    let n_mod = 1 + d.weighted(&[4, 4, 3]);
+    let n_mod = 1 + d.weighted(&[3, 4, 4]);
     let has_clk = d.chance(1, 4);
     let mut info = GenInfo::default();
     let mut back_left = cfg.back_budget;
